@@ -12,6 +12,7 @@ CONSTANTS
   Clamps <- L_Bool
   Actuations <- L_True
   DisSets <- L_DisQ
+  Gravs <- L_G1
   Variant = "doc"
 VIEW ViewNoEv
 INVARIANT TypeOK
@@ -23,6 +24,7 @@ INVARIANT ActuationOffNoJointForce
 INVARIANT DisabledFrozen
 INVARIANT PowerBalance
 INVARIANT Undriven
+INVARIANT GravCompRouted
 INVARIANT ActInRange
 INVARIANT JointClampMinimal
 INVARIANT MuscleEnvelope
